@@ -74,7 +74,7 @@ def step (_ : Unit) (line : String) : Unit × String :=
     | ["rd", hex] =>
       match hexText hex with
       | some s =>
-        match parseNumberF conv.infSym conv.nanSym s with
+        match filePieceReadF conv.infSym conv.nanSym s with
         | .err => "err parse"
         | .nan c => "nan " ++ toString c
         | .val neg c => "val " ++ b01 neg ++ " " ++ toString c
